@@ -22,7 +22,7 @@ pub fn spec() -> Spec {
         case_cap_s: |t| t.pick(300, 3600),
         rule: "one case per connected complete 2-dimensional symbol: every labeled symbol of size <= 4 (all renumberings) and every class representative of size 5 (thorough: up to 7, with systematic renumberings) x every branching vector over {1,2,3,4,5,11}. Clauses: curvature = sum over chambers of 1/m01 + 1/m12 - 1/2 (definition); curvature = 2 * chi(parse(orbifold_symbol)); symbol (normalised over cone order, component order, rotation and reversal of corner lists) and curvature equal to those of the class representative and of the dual; curvature of harness-built 2-sheeted covers, of oriented_cover and of covers(s, <= 3) = sheets * curvature; is_euclidean/is_hyperbolic/is_spherical against the sign of K and the tear-drop/spindle test on the orbifold computed from the definitions by the reference model. Non-trivial = size >= 2 or some branching > 1.",
         assumptions: &["covers(s, k) and oriented_cover only supply covers; each is verified to be a covering by the reference model and its sheet number is taken from that verification"],
-        bounds: |t| json!({"labeled_max_size": 4, "class_representatives_size": t.pick(7, 8), "V": [1,2,3,4,5,11], "size_5_plus_V": t.pick(json!([1,2,3,4,5,11]), json!([1,2,3,5,11])),
+        bounds: |t| json!({"labeled_max_size": 4, "class_representatives_size": t.pick(7, 8), "V": [1,2,3,4,5,11], "degree_boundary_family": "sizes <= 3 [4], values 1-13, 19-21, 99-101, 999, 1000 on <= 2 orbits (1 orbit above size 2)", "size_5_plus_V": t.pick(json!([1,2,3,4,5,11]), json!([1,2,3,5,11])),
             "crate_covers_max_sheets": 3, "crate_covers_on_sizes_up_to": t.pick(3, 4)}),
     }
 }
@@ -159,6 +159,21 @@ fn run(ctx: &mut Ctx) {
                         let rep = s.iso_key_all_perms();
                         // covers only on the class representatives (they are relabeling-invariant constructions)
                         check_symbol(ctx, "labeled", s, Some(&rep), &rep == s);
+                    }
+                });
+            }
+        });
+    }
+    // degree boundaries: the orbifold symbol writes degrees >= 10 in parentheses, so every value around the
+    // one-digit / two-digit / three-digit boundaries is placed on one or two orbits of every small set
+    let wide: Vec<usize> = vec![1, 2, 3, 4, 5, 6, 7, 8, 9, 10, 11, 12, 13, 19, 20, 21, 99, 100, 101, 999, 1000];
+    for n in 1..=tier.pick(3, 4) {
+        for_each_labeled_set(2, n, true, &mut |ops| {
+            if ops_connected(ops) {
+                for_each_branching(ops, &wide, if n <= 2 { 2 } else { 1 }, &mut |s| {
+                    if s.v.iter().any(|row| row.iter().any(|&x| x > 5 && x != 11)) && ctx.take() {
+                        let rep = s.iso_key_all_perms();
+                        check_symbol(ctx, "degree-boundary", s, Some(&rep), false);
                     }
                 });
             }
